@@ -160,12 +160,12 @@ theorem multi_block_loadK (c : Codec) (K : Kind) (i : Nat) (l : List BInfo)
 /-- the chunk (with absolute time index) a change of the specification stands for -/
 def encVK (K : Kind) (x : Nat × Value) : Change := (x.1, K.valEnc x.2)
 
-structure SimK (K : Kind) (c : Codec) (i : Nat) (e : Enc) (s : Spec.St) (l : List BInfo) (cs : List Change) : Prop where
+structure SimK (K : Kind) (c : Codec) (i : Nat) (base : Nat) (pre : List Change) (e : Enc) (s : Spec.St) (l : List BInfo) (cs : List Change) : Prop where
   inv : Inv e
   wf : s.ttLen = s.ttRev.length
-  skip : e.skipping = s.skipping
-  head : e.timeRev.head? = s.ttRev.head?
-  len : s.ttLen = offOf l + e.timeLen
+  skip : e.skipping = s.skipping ∨ (e.timeRev = [] ∧ s.needNewMax = true)
+  head : e.timeRev.head? = s.ttRev.head? ∨ (e.timeRev = [] ∧ s.needNewMax = true)
+  len : s.ttLen = base + offOf l + e.timeLen
   cap : e.timeLen ≤ c.blockMax
   blocks : e.blocksRev.reverse = l.map (fun p => mkBlock c p.1)
   inblk : ∀ p ∈ l, SigInBlockK K i p
@@ -174,47 +174,64 @@ structure SimK (K : Kind) (c : Codec) (i : Nat) (e : Enc) (s : Spec.St) (l : Lis
         (∀ x ∈ cs, x.2.1.toNat ≤ si.maxStates.toNat)
   fits : ∀ x ∈ cs, K.fit x.2 ∧ x.1 < 2 ^ 28
   clean : e.hasNewData = false → cs = []
-  sem : absAll l 0 ++ absolutise (offOf l) cs = ((s.changesRev.getD i []).reverse).map (encVK K)
+  sem : pre ++ absAll l base ++ absolutise (base + offOf l) cs = ((s.changesRev.getD i []).reverse).map (encVK K)
   vals : ∀ x ∈ s.changesRev.getD i [], K.valOK x.2
 
-theorem sim_initK (K : Kind) (c : Codec) (i : Nat) (tps : List SigType) (hi : tps[i]? = some K.tpe) :
-    SimK K c i (newEnc tps) { changesRev := (tps.map fun _ => []).toArray } [] [] := by
-  have hget : (Array.getD (tps.map fun _ => ([] : List (Nat × Value))).toArray i []) = [] := by
-    simp [Array.getD_eq_getD_getElem?, List.getElem?_map]
-    cases tps[i]? <;> simp
-  refine ⟨(newEnc_inv tps).1, rfl, rfl, rfl, by simp [offOf, newEnc], by simp [newEnc], by simp [newEnc], by simp, ?_, by simp, fun _ => rfl, ?_, ?_⟩
+/-- a fresh encoder is in step with a specification state that has recorded `base` time steps and the changes `pre`, provided
+the next operation must open a new maximum (nothing recorded yet, or directly after a split) -/
+theorem sim_initK (K : Kind) (c : Codec) (i : Nat) (tps : List SigType) (hi : tps[i]? = some K.tpe) (s : Spec.St)
+    (hwf : s.ttLen = s.ttRev.length) (hskf : (newEnc tps).skipping = s.skipping ∨ ((newEnc tps).timeRev = [] ∧ s.needNewMax = true)) (hnm : s.ttRev = [] ∨ s.needNewMax = true)
+    (hvals : ∀ x ∈ s.changesRev.getD i [], K.valOK x.2) :
+    SimK K c i s.ttLen (((s.changesRev.getD i []).reverse).map (encVK K)) (newEnc tps) s [] [] := by
+  refine ⟨(newEnc_inv tps).1, hwf, hskf, ?_, by simp [offOf, newEnc], by simp [newEnc], by simp [newEnc], by simp, ?_, by simp,
+    fun _ => rfl, by simp [absAll, absolutise], hvals⟩
+  · rcases hnm with h | h
+    · left; simp [newEnc, h]
+    · right; exact ⟨rfl, h⟩
   · refine ⟨{ tpe := K.tpe }, ?_, rfl, by simp [SigEnc.dataBytes, encK], by simp, by simp, by simp⟩
     simp [newEnc, List.getElem?_map, hi]
-  · simp only [absAll, absolutise, List.append_nil]
-    rw [hget]; rfl
-  · rw [hget]; simp
 
-
-theorem sim_timeK (K : Kind) (c : Codec) (i : Nat) (types : Array SigType) (e : Enc) (s : Spec.St) (l : List BInfo) (cs : List Change)
-    (hbm : 1 ≤ c.blockMax) (h : SimK K c i e s l cs) (t : Nat) (s' : Spec.St) (hs : Spec.step types s (.time t) = some s') :
-    ∃ l' cs', SimK K c i (timeChange c e t) s' l' cs' := by
+theorem sim_timeK (K : Kind) (c : Codec) (i : Nat) (base : Nat) (pre : List Change) (types : Array SigType) (e : Enc) (s : Spec.St) (l : List BInfo) (cs : List Change)
+    (hbm : 1 ≤ c.blockMax) (h : SimK K c i base pre e s l cs) (t : Nat) (s' : Spec.St) (hs : Spec.step types s (.time t) = some s') :
+    ∃ l' cs', SimK K c i base pre (timeChange c e t) s' l' cs' := by
   have hinv := timeChange_inv c e t h.inv
   obtain ⟨si, hsi, htpe, hdata, hprev, hple, hkind⟩ := h.sig
   cases hrev : e.timeRev with
   | nil =>
-    have hsn : s.ttRev = [] := by
-      have := h.head; rw [hrev] at this
-      cases hh : s.ttRev with
-      | nil => rfl
-      | cons a r => rw [hh] at this; simp at this
-    simp only [Spec.step, hsn, Option.some.injEq] at hs
-    subst hs
     have hl0 : e.timeLen = 0 := by rw [h.inv.len, hrev]; rfl
-    have ho : offOf l = 0 := by have := h.len; rw [h.wf, hsn, hl0] at this; simp at this; omega
     have he : timeChange c e t = { e with timeRev := [t], timeLen := 1, hasNewData := true, skipping := false } := by
       simp [timeChange, hrev]
     rw [he] at hinv ⊢
-    refine ⟨l, cs, hinv, rfl, rfl, rfl, by simp [ho], ?_, h.blocks, h.inblk, ⟨si, hsi, htpe, hdata, hprev, ?_, hkind⟩, h.fits, ?_, h.sem, h.vals⟩
-    · exact hbm
-    · simp only; rw [hl0] at hple; omega
-    · intro hf; simp at hf
+    have hlen := h.len
+    cases hsr : s.ttRev with
+    | nil =>
+      simp only [Spec.step, hsr, Option.some.injEq] at hs
+      subst hs
+      have ho : base + offOf l = 0 := by rw [h.wf, hsr, hl0] at hlen; simp at hlen; omega
+      refine ⟨l, cs, hinv, rfl, Or.inl rfl, Or.inl rfl, by simp; omega, hbm, h.blocks, h.inblk, ⟨si, hsi, htpe, hdata, hprev, ?_, hkind⟩, h.fits, ?_, h.sem, h.vals⟩
+      · simp only; rw [hl0] at hple; omega
+      · intro hf; simp at hf
+    | cons m srest =>
+      -- directly after a split: the specification accepts only a new maximum
+      have hnm : s.needNewMax = true := by
+        rcases h.head with hh | hh
+        · rw [hrev, hsr] at hh; simp at hh
+        · exact hh.2
+      simp only [Spec.step, hsr] at hs
+      by_cases hgt : t > m
+      · simp only [hgt, ↓reduceIte, Option.some.injEq] at hs
+        subst hs
+        refine ⟨l, cs, hinv, by simp [h.wf, hsr], Or.inl rfl, Or.inl rfl, by simp only; omega, hbm, h.blocks, h.inblk,
+          ⟨si, hsi, htpe, hdata, hprev, ?_, hkind⟩, h.fits, ?_, h.sem, h.vals⟩
+        · simp only; rw [hl0] at hple; omega
+        · intro hf; simp at hf
+      · simp only [hgt, ↓reduceIte, hnm] at hs
+        cases hs
   | cons prev rest =>
-    have hsh : s.ttRev.head? = some prev := by rw [← h.head, hrev]; rfl
+    have hsh : s.ttRev.head? = some prev := by
+      rcases h.head with hh | hh
+      · rw [← hh, hrev]; rfl
+      · rw [hrev] at hh; cases hh.1
     obtain ⟨srest, hsr⟩ : ∃ r, s.ttRev = prev :: r := by
       cases hh : s.ttRev with
       | nil => rw [hh] at hsh; cases hsh
@@ -235,7 +252,7 @@ theorem sim_timeK (K : Kind) (c : Codec) (i : Nat) (types : Array SigType) (e : 
         rw [he] at hinv ⊢
         have hoff : offOf (l ++ [(descOf e, si, cs)]) = offOf l + e.timeLen := by
           rw [offOf_append]; simp [offOf, descOf, h.inv.len]
-        refine ⟨l ++ [(descOf e, si, cs)], [], hinv, by simp [h.wf, hsr], rfl, by simp, ?_, hbm, ?_, ?_, ?_, by simp, fun _ => rfl, ?_, h.vals⟩
+        refine ⟨l ++ [(descOf e, si, cs)], [], hinv, by simp [h.wf, hsr], Or.inl rfl, Or.inl (by simp), ?_, hbm, ?_, ?_, ?_, by simp, fun _ => rfl, ?_, h.vals⟩
         · simp only [hoff]; have := h.len; omega
         · simp only [List.reverse_cons, h.blocks, List.map_append, List.map_cons, List.map_nil]
         · intro p hp
@@ -250,12 +267,12 @@ theorem sim_timeK (K : Kind) (c : Codec) (i : Nat) (types : Array SigType) (e : 
           · rw [finishSignal_fst]; simp
           · rw [finishSignal_fst]; simp
         · rw [absAll_append]
-          simp only [absAll, absolutise, List.append_nil, Nat.zero_add]
+          simp only [absAll, absolutise, List.append_nil, ← List.append_assoc]
           exact h.sem
       · have he : timeChange c e t = { e with timeRev := t :: e.timeRev, timeLen := e.timeLen + 1, hasNewData := true, skipping := false } := by
           simp [timeChange, hrev, hne, hng, hroll]
         rw [he] at hinv ⊢
-        refine ⟨l, cs, hinv, by simp [h.wf, hsr], rfl, by simp, ?_, ?_, h.blocks, h.inblk, ⟨si, hsi, htpe, hdata, hprev, ?_, hkind⟩, h.fits, ?_, h.sem, h.vals⟩
+        refine ⟨l, cs, hinv, by simp [h.wf, hsr], Or.inl rfl, Or.inl (by simp), ?_, ?_, h.blocks, h.inblk, ⟨si, hsi, htpe, hdata, hprev, ?_, hkind⟩, h.fits, ?_, h.sem, h.vals⟩
         · simp only; have := h.len; omega
         · simp only; omega
         · simp only; omega
@@ -268,33 +285,44 @@ theorem sim_timeK (K : Kind) (c : Codec) (i : Nat) (types : Array SigType) (e : 
           simp only [Option.some.injEq] at hs; subst hs
           have he : timeChange c e t = { e with skipping := false } := by simp [timeChange, hrev, heq]
           rw [he] at hinv ⊢
-          exact ⟨l, cs, hinv, by simp [h.wf, hsr], rfl, by simp [hrev], h.len, h.cap, h.blocks, h.inblk, ⟨si, hsi, htpe, hdata, hprev, hple, hkind⟩, h.fits, h.clean, h.sem, h.vals⟩
+          exact ⟨l, cs, hinv, by simp [h.wf, hsr], Or.inl rfl, Or.inl (by simp [hrev]), h.len, h.cap, h.blocks, h.inblk, ⟨si, hsi, htpe, hdata, hprev, hple, hkind⟩, h.fits, h.clean, h.sem, h.vals⟩
         · rename_i hneq
           simp only [Option.some.injEq] at hs; subst hs
           have hne : ¬ prev = t := fun hh => hneq hh.symm
           have hg : prev > t := by omega
           have he : timeChange c e t = { e with skipping := true } := by simp [timeChange, hrev, hne, hg]
           rw [he] at hinv ⊢
-          exact ⟨l, cs, hinv, by simp [h.wf, hsr], rfl, by simp [hrev], h.len, h.cap, h.blocks, h.inblk, ⟨si, hsi, htpe, hdata, hprev, hple, hkind⟩, h.fits, h.clean, h.sem, h.vals⟩
+          exact ⟨l, cs, hinv, by simp [h.wf, hsr], Or.inl rfl, Or.inl (by simp [hrev]), h.len, h.cap, h.blocks, h.inblk, ⟨si, hsi, htpe, hdata, hprev, hple, hkind⟩, h.fits, h.clean, h.sem, h.vals⟩
 
 
 /-- a value operation on another signal leaves signal `i` alone -/
-theorem sim_value_otherK (K : Kind) (c : Codec) (i : Nat) (e e' : Enc) (s s' : Spec.St) (l : List BInfo) (cs : List Change)
-    (h : SimK K c i e s l cs) (j : Nat) (hij : j ≠ i) (f : Nat → SigEnc → Option SigEnc)
+theorem record_needNewMax (s s' : Spec.St) (j : Nat) (v : Value) (h : record s j v = some s') : s'.needNewMax = s.needNewMax := by
+  unfold record at h
+  split at h
+  · cases h; rfl
+  · cases h
+
+theorem sim_value_otherK (K : Kind) (c : Codec) (i : Nat) (base : Nat) (pre : List Change) (e e' : Enc) (s s' : Spec.St) (l : List BInfo) (cs : List Change)
+    (h : SimK K c i base pre e s l cs) (j : Nat) (hij : j ≠ i) (f : Nat → SigEnc → Option SigEnc)
     (he : valueChange e j f = some e') (v : Value) (hs : (if s.skipping then some s else record s j v) = some s') :
-    SimK K c i e' s' l cs := by
+    SimK K c i base pre e' s' l cs := by
   obtain ⟨hinv', _⟩ := valueChange_frame e e' j f he h.inv
   unfold valueChange at he
   split at he
   · cases he
-  · split at he
+  · rename_i hl0
+    have hskeq : e.skipping = s.skipping := by
+      rcases h.skip with hh | hh
+      · exact hh
+      · exfalso; apply hl0; rw [h.inv.len, hh.1]; rfl
+    split at he
     · rename_i hsk
       cases he
-      have : s.skipping = true := by rw [← h.skip]; exact hsk
+      have : s.skipping = true := by rw [← hskeq]; exact hsk
       simp only [this, ↓reduceIte, Option.some.injEq] at hs
       subst hs; exact h
     · rename_i hsk
-      have hsk' : s.skipping = false := by rw [← h.skip]; simpa using hsk
+      have hsk' : s.skipping = false := by rw [← hskeq]; simpa using hsk
       simp only [hsk', Bool.false_eq_true, ↓reduceIte] at hs
       obtain ⟨r1, r2, r3, r4⟩ := record_getD_ne s s' j i v hs hij
       obtain ⟨u1, u2, u3, u4⟩ := updSig_frame e e' j _ he
@@ -308,7 +336,7 @@ theorem sim_value_otherK (K : Kind) (c : Codec) (i : Nat) (e e' : Enc) (s s' : S
             simp only [Array.toList_set]
             rw [List.getElem?_set_ne hij]; exact hsi
         · cases he
-      refine ⟨hinv', by rw [r3, r2]; exact h.wf, by rw [r4, updSig_skipping e e' j _ he]; exact h.skip, by rw [u1, r2]; exact h.head, by rw [r3, u2]; exact h.len,
+      refine ⟨hinv', by rw [r3, r2]; exact h.wf, by rw [r4, updSig_skipping e e' j _ he]; exact Or.inl hskeq, by rw [u1, r2, record_needNewMax s s' j v hs]; exact h.head, by rw [r3, u2]; exact h.len,
         by rw [u2]; exact h.cap, by rw [u3]; exact h.blocks, h.inblk, ⟨si, hsig, by rw [u2]; exact rest⟩, h.fits, ?_, by rw [r1]; exact h.sem, by rw [r1]; exact h.vals⟩
       intro hf; rw [u4] at hf; cases hf
 
@@ -322,25 +350,29 @@ def Agrees (K : Kind) (ti : Nat) (si snew : SigEnc) (v : Value) : Prop :=
   (K.valEnc v).1.toNat ≤ snew.maxStates.toNat
 
 /-- a value change of signal `i` itself: one more chunk, one more change of the specification -/
-theorem sim_value_sameK (K : Kind) (c : Codec) (i : Nat) (hbmax : c.blockMax ≤ 2 ^ 28)
+theorem sim_value_sameK (K : Kind) (c : Codec) (i : Nat) (base : Nat) (pre : List Change) (hbmax : c.blockMax ≤ 2 ^ 28)
     (e e' : Enc) (s s' : Spec.St) (l : List BInfo) (cs : List Change)
-    (h : SimK K c i e s l cs) (f : Nat → SigEnc → Option SigEnc)
+    (h : SimK K c i base pre e s l cs) (f : Nat → SigEnc → Option SigEnc)
     (he : valueChange e i f = some e') (v : Value) (hs : (if s.skipping then some s else record s i v) = some s')
     (hagree : ∀ si snew, si.tpe = K.tpe → f (e.timeLen - 1) si = some snew → Agrees K (e.timeLen - 1) si snew v) :
-    ∃ cs', SimK K c i e' s' l cs' := by
+    ∃ cs', SimK K c i base pre e' s' l cs' := by
   obtain ⟨hinv', _⟩ := valueChange_frame e e' i _ he h.inv
   unfold valueChange at he
   split at he
   · cases he
   · rename_i hl0
+    have hskeq : e.skipping = s.skipping := by
+      rcases h.skip with hh | hh
+      · exact hh
+      · exfalso; apply hl0; rw [h.inv.len, hh.1]; rfl
     split at he
     · rename_i hsk
       cases he
-      have : s.skipping = true := by rw [← h.skip]; exact hsk
+      have : s.skipping = true := by rw [← hskeq]; exact hsk
       simp only [this, ↓reduceIte, Option.some.injEq] at hs
       subst hs; exact ⟨cs, h⟩
     · rename_i hsk
-      have hsk' : s.skipping = false := by rw [← h.skip]; simpa using hsk
+      have hsk' : s.skipping = false := by rw [← hskeq]; simpa using hsk
       simp only [hsk', Bool.false_eq_true, ↓reduceIte] at hs
       obtain ⟨r1, r2, r3, r4⟩ := record_getD_eq s s' i v hs
       obtain ⟨u1, u2, u3, u4⟩ := updSig_frame e e' i _ he
@@ -362,7 +394,7 @@ theorem sim_value_sameK (K : Kind) (c : Codec) (i : Nat) (hbmax : c.blockMax ≤
             simp only [Array.toList_set]
             rw [List.getElem?_set_self (by simpa using hlt)]
           refine ⟨cs ++ [(e.timeLen - 1 - si.prevTimeIdx, K.valEnc v)],
-            hinv', by rw [r3, r2]; exact h.wf, by rw [r4, u5]; exact h.skip, by rw [u1, r2]; exact h.head,
+            hinv', by rw [r3, r2]; exact h.wf, by rw [r4, u5]; exact Or.inl hskeq, by rw [u1, r2, record_needNewMax s s' i v hs]; exact h.head,
             by rw [r3, u2]; exact h.len, by rw [u2]; exact h.cap, by rw [u3]; exact h.blocks, h.inblk,
             ⟨snew, hsig, by rw [htn]; exact htpe, ?_, ?_, by rw [hpn, u2]; exact Nat.le_refl _, ?_⟩, ?_, ?_, ?_, ?_⟩
           · rw [dataBytes_cons snew _ _ hch, encK_append]
@@ -390,7 +422,7 @@ theorem sim_value_sameK (K : Kind) (c : Codec) (i : Nat) (hbmax : c.blockMax ≤
             rw [h.sem]
             congr 1
             have hlen := h.len
-            have : offOf l + (cs.map (·.1)).sum + (e.timeLen - 1 - si.prevTimeIdx) = s.ttLen - 1 := by
+            have : base + offOf l + (cs.map (·.1)).sum + (e.timeLen - 1 - si.prevTimeIdx) = s.ttLen - 1 := by
               rw [← hprev]; omega
             simp only [encVK, this]
           · intro x hx
@@ -425,11 +457,11 @@ theorem spec_raw_step (types : Array SigType) (s s' : Spec.St) (j : Nat) (st : S
       · rename_i v hv
         exact ⟨tp, v, htp, hv, hs⟩
 
-theorem sim_runK (K : Kind) (hK : KindOK K) (c : Codec) (i : Nat) (hbm : 1 ≤ c.blockMax) (hbmax : c.blockMax ≤ 2 ^ 28)
+theorem sim_runK (K : Kind) (hK : KindOK K) (c : Codec) (i : Nat) (base : Nat) (pre : List Change) (hbm : 1 ≤ c.blockMax) (hbmax : c.blockMax ≤ 2 ^ 28)
     (types : Array SigType) (hti : types[i]? = some K.tpe) (ops : List Op) :
-    ∀ (e : Enc) (s : Spec.St) (l : List BInfo) (cs : List Change), SimK K c i e s l cs →
+    ∀ (e : Enc) (s : Spec.St) (l : List BInfo) (cs : List Change), SimK K c i base pre e s l cs →
       (∀ op ∈ ops, ∀ j v r, op = .vcd j v (some r) → r.length = 8) →
-      ∀ e' s', runOps c e ops = some e' → foldSpec types ops s = some s' → ∃ l' cs', SimK K c i e' s' l' cs' := by
+      ∀ e' s', runOps c e ops = some e' → foldSpec types ops s = some s' → ∃ l' cs', SimK K c i base pre e' s' l' cs' := by
   induction ops with
   | nil =>
     intro e s l cs h _ e' s' he hs
@@ -452,14 +484,14 @@ theorem sim_runK (K : Kind) (hK : KindOK K) (c : Codec) (i : Nat) (hbm : 1 ≤ c
         rw [hs1] at hs
         simp only [Option.bind_some] at hs
         have hreal' : ∀ op ∈ rest, ∀ j v r, op = .vcd j v (some r) → r.length = 8 := fun o ho => hreal o (List.mem_cons_of_mem _ ho)
-        suffices hstep : ∃ l1 cs1, SimK K c i e1 s1 l1 cs1 by
+        suffices hstep : ∃ l1 cs1, SimK K c i base pre e1 s1 l1 cs1 by
           obtain ⟨l1, cs1, h1⟩ := hstep
           exact ih e1 s1 l1 cs1 h1 hreal' e' s' he hs
         cases op with
         | time t =>
           simp only [stepOp, Option.some.injEq] at he1
           subst he1
-          exact sim_timeK K c i types e s l cs hbm h t s1 hs1
+          exact sim_timeK K c i base pre types e s l cs hbm h t s1 hs1
         | vcd j value r =>
           have he1' : valueChange e j (fun ti => addVcd ti value r) = some e1 := he1
           obtain ⟨_, v, hrec, hval⟩ := spec_value_step types s s1 (.vcd j value r) j (Or.inl ⟨value, r, rfl⟩) hs1
@@ -471,10 +503,10 @@ theorem sim_runK (K : Kind) (hK : KindOK K) (c : Codec) (i : Nat) (hbm : 1 ≤ c
             have hr8 : ∀ r', r = some r' → r'.length = 8 := by
               intro r' hr'; subst hr'
               exact hreal (.vcd j value (some r')) (by simp) j value r' rfl
-            obtain ⟨cs1, h1⟩ := sim_value_sameK K c j hbmax e e1 s s1 l cs h _ he1' v hrec
+            obtain ⟨cs1, h1⟩ := sim_value_sameK K c j base pre hbmax e e1 s s1 l cs h _ he1' v hrec
               (fun si snew hst hadd => hK.vcd _ value r si snew v hst hr8 hadd hvv)
             exact ⟨l, cs1, h1⟩
-          · exact ⟨l, cs, sim_value_otherK K c i e e1 s s1 l cs h j hji (fun ti => addVcd ti value r) he1' v hrec⟩
+          · exact ⟨l, cs, sim_value_otherK K c i base pre e e1 s s1 l cs h j hji (fun ti => addVcd ti value r) he1' v hrec⟩
         | raw j st b =>
           have he1' : valueChange e j (fun ti => addNBit ti b st) = some e1 := he1
           obtain ⟨_, v, hrec, _⟩ := spec_value_step types s s1 (.raw j st b) j (Or.inr (Or.inl ⟨st, b, rfl⟩)) hs1
@@ -483,10 +515,10 @@ theorem sim_runK (K : Kind) (hK : KindOK K) (c : Codec) (i : Nat) (hbm : 1 ≤ c
             obtain ⟨tp, v', htp, hv', hrec'⟩ := spec_raw_step types s s1 j st b hs1
             rw [hti] at htp
             cases htp
-            obtain ⟨cs1, h1⟩ := sim_value_sameK K c j hbmax e e1 s s1 l cs h _ he1' v' hrec'
+            obtain ⟨cs1, h1⟩ := sim_value_sameK K c j base pre hbmax e e1 s s1 l cs h _ he1' v' hrec'
               (fun si snew hst hadd => hK.raw _ st b si snew v' hst hadd hv')
             exact ⟨l, cs1, h1⟩
-          · exact ⟨l, cs, sim_value_otherK K c i e e1 s s1 l cs h j hji _ he1' v hrec⟩
+          · exact ⟨l, cs, sim_value_otherK K c i base pre e e1 s s1 l cs h j hji _ he1' v hrec⟩
         | real j le =>
           have he1' : valueChange e j (fun ti => addReal ti le) = some e1 := he1
           obtain ⟨_, v, hrec, _⟩ := spec_value_step types s s1 (.real j le) j (Or.inr (Or.inr ⟨le, rfl⟩)) hs1
@@ -508,42 +540,296 @@ theorem sim_runK (K : Kind) (hK : KindOK K) (c : Codec) (i : Nat) (hbm : 1 ≤ c
                 | string => rw [hkt] at hs1; cases hs1
                 | bitvec b => rw [hkt] at hs1; cases hs1
             obtain ⟨hkr, h8, hrec'⟩ := hfacts
-            obtain ⟨cs1, h1⟩ := sim_value_sameK K c j hbmax e e1 s s1 l cs h _ he1' (.real le) hrec'
+            obtain ⟨cs1, h1⟩ := sim_value_sameK K c j base pre hbmax e e1 s s1 l cs h _ he1' (.real le) hrec'
               (fun si snew hst hadd => hK.real _ le si snew hst hkr h8 hadd)
             exact ⟨l, cs1, h1⟩
-          · exact ⟨l, cs, sim_value_otherK K c i e e1 s s1 l cs h j hji _ he1' v hrec⟩
+          · exact ⟨l, cs, sim_value_otherK K c i base pre e e1 s s1 l cs h j hji _ he1' v hrec⟩
         | split => simp [stepOp] at he1
 
 
 /-! ### from the simulation to the loaded signal -/
 
-theorem store_blocks_refine_specK (K : Kind) (hK : KindOK K) (c : Codec) (i : Nat) (hbm : 1 ≤ c.blockMax) (hbmax : c.blockMax ≤ 2 ^ 28)
-    (tps : List SigType) (hti : tps[i]? = some K.tpe) (ops : List Op)
-    (hreal : ∀ op ∈ ops, ∀ j v r, op = .vcd j v (some r) → r.length = 8)
-    (e : Enc) (he : runOps c (newEnc tps) ops = some e) (s : Spec.St) (hs : foldSpec tps.toArray ops (specInit tps) = some s) :
-    ∃ lf : List BInfo, (finish c e).1.blocks = lf.map (fun p => mkBlock c p.1) ∧ (∀ p ∈ lf, SigInBlockK K i p) ∧
-      absAll lf 0 = ((s.changesRev.getD i []).reverse).map (encVK K) ∧
-      (∀ x ∈ s.changesRev.getD i [], K.valOK x.2) := by
-  obtain ⟨l, cs, h⟩ := sim_runK K hK c i hbm hbmax tps.toArray (by simpa using hti) ops (newEnc tps) (specInit tps) [] []
-    (sim_initK K c i tps hti) hreal e s he hs
+theorem spec_skip_step (types : Array SigType) (s s' : Spec.St) (op : Op) (h : Spec.step types s op = some s')
+    (hi : s.ttRev = [] → s.skipping = false) : s'.ttRev = [] → s'.skipping = false := by
+  have hrec : ∀ j v, (if s.skipping then some s else record s j v) = some s' → (s'.ttRev = [] → s'.skipping = false) := by
+    intro j v hh
+    split at hh
+    · cases hh; exact hi
+    · unfold record at hh
+      split at hh
+      · cases hh; exact hi
+      · cases hh
+  cases op with
+  | time t =>
+    simp only [Spec.step] at h
+    split at h
+    · cases h; intro _; rfl
+    · split at h
+      · cases h; intro hh; cases hh
+      · split at h
+        · cases h
+        · split at h
+          · simp only [Option.some.injEq] at h; subst h
+            intro hh; simp_all
+          · simp only [Option.some.injEq] at h; subst h
+            intro hh; simp_all
+  | split =>
+    simp only [Spec.step] at h
+    split at h <;> (cases h; exact hi)
+  | vcd j value r =>
+    obtain ⟨_, v, hh, _⟩ := spec_value_step types s s' (.vcd j value r) j (Or.inl ⟨value, r, rfl⟩) h
+    exact hrec j v hh
+  | raw j st b =>
+    obtain ⟨_, v, hh, _⟩ := spec_value_step types s s' (.raw j st b) j (Or.inr (Or.inl ⟨st, b, rfl⟩)) h
+    exact hrec j v hh
+  | real j le =>
+    obtain ⟨_, v, hh, _⟩ := spec_value_step types s s' (.real j le) j (Or.inr (Or.inr ⟨le, rfl⟩)) h
+    exact hrec j v hh
+
+theorem spec_skip_fold (types : Array SigType) (ops : List Op) : ∀ (s s' : Spec.St), foldSpec types ops s = some s' →
+    (s.ttRev = [] → s.skipping = false) → (s'.ttRev = [] → s'.skipping = false) := by
+  induction ops with
+  | nil => intro s s' h hi; simp only [foldSpec, List.foldl_nil, Option.some.injEq] at h; subst h; exact hi
+  | cons op r ih =>
+    intro s s' h hi
+    rw [foldSpec_cons] at h
+    cases hs : Spec.step types s op with
+    | none => rw [hs] at h; cases h
+    | some s1 => rw [hs] at h; exact ih s1 s' h (spec_skip_step types s s1 op hs hi)
+
+/-- the changes of signal `i` the specification has recorded, as chunks with absolute time indices -/
+def specChunks (K : Kind) (i : Nat) (s : Spec.St) : List Change := ((s.changesRev.getD i []).reverse).map (encVK K)
+
+/-- **one segment** (one encoder, started when the specification has recorded `s.ttLen` time steps): its closed blocks carry
+exactly the changes the specification records during the segment, at time indices that continue the specification's count -/
+theorem seg_refine (K : Kind) (hK : KindOK K) (c : Codec) (i : Nat) (hbm : 1 ≤ c.blockMax) (hbmax : c.blockMax ≤ 2 ^ 28)
+    (tps : List SigType) (hti : tps[i]? = some K.tpe) (s : Spec.St) (hwf : s.ttLen = s.ttRev.length)
+    (hnm : s.ttRev = [] ∨ s.needNewMax = true) (hsk : s.ttRev = [] → s.skipping = false)
+    (hvals : ∀ x ∈ s.changesRev.getD i [], K.valOK x.2) (seg : List Op)
+    (hreal : ∀ op ∈ seg, ∀ j v r, op = .vcd j v (some r) → r.length = 8)
+    (e : Enc) (he : runOps c (newEnc tps) seg = some e) (s' : Spec.St) (hs : foldSpec tps.toArray seg s = some s') :
+    ∃ lf : List BInfo, (finishBlock c e).blocksRev.reverse = lf.map (fun p => mkBlock c p.1) ∧ (finishBlock c e).hasNewData = false ∧
+      (∀ p ∈ lf, SigInBlockK K i p) ∧ specChunks K i s ++ absAll lf s.ttLen = specChunks K i s' ∧
+      s'.ttLen = s.ttLen + offOf lf ∧ s'.ttLen = s'.ttRev.length ∧ (∀ x ∈ s'.changesRev.getD i [], K.valOK x.2) := by
+  have hskf : (newEnc tps).skipping = s.skipping ∨ ((newEnc tps).timeRev = [] ∧ s.needNewMax = true) := by
+    rcases hnm with h | h
+    · left; rw [hsk h]; rfl
+    · right; exact ⟨rfl, h⟩
+  obtain ⟨l, cs, h⟩ := sim_runK K hK c i s.ttLen (specChunks K i s) hbm hbmax tps.toArray (by simpa using hti) seg (newEnc tps) s [] []
+    (sim_initK K c i tps hti s hwf hskf hnm hvals) hreal e s' he hs
   obtain ⟨si, hsi, _, hdata, _, _, hkind⟩ := h.sig
+  have hlen := h.len
   by_cases hd : e.hasNewData = true
-  · refine ⟨l ++ [(descOf e, si, cs)], ?_, ?_, ?_, h.vals⟩
-    · simp only [finish, finishBlock_dirty' c e hd, List.reverse_cons, h.blocks, List.map_append, List.map_cons, List.map_nil]
+  · refine ⟨l ++ [(descOf e, si, cs)], ?_, ?_, ?_, ?_, ?_, h.wf, h.vals⟩
+    · simp only [finishBlock_dirty' c e hd, List.reverse_cons, h.blocks, List.map_append, List.map_cons, List.map_nil]
+    · simp [finishBlock_dirty' c e hd]
     · intro p hp
       rcases List.mem_append.mp hp with hp | hp
       · exact h.inblk p hp
       · simp only [List.mem_singleton] at hp; subst hp
         exact ⟨hsi, hdata, h.fits, hkind⟩
     · rw [absAll_append]
-      simp only [absAll, List.append_nil, Nat.zero_add]
+      simp only [absAll, List.append_nil, ← List.append_assoc]
       exact h.sem
+    · rw [offOf_append]
+      have : offOf [(descOf e, si, cs)] = e.timeLen := by
+        simp [offOf, descOf, h.inv.len]
+      rw [this]; omega
   · have hd' : e.hasNewData = false := by simpa using hd
-    refine ⟨l, ?_, h.inblk, ?_, h.vals⟩
-    · simp only [finish, finishBlock_clean c e hd', h.blocks]
+    have htr : e.timeRev = [] := by
+      by_cases ht : e.timeRev = []
+      · exact ht
+      · have := h.inv.dirty ht; rw [hd'] at this; cases this
+    have hl0 : e.timeLen = 0 := by rw [h.inv.len, htr]; rfl
+    refine ⟨l, ?_, ?_, h.inblk, ?_, by omega, h.wf, h.vals⟩
+    · rw [finishBlock_clean c e hd']; exact h.blocks
+    · rw [finishBlock_clean c e hd']; exact hd'
     · have := h.sem
       rw [h.clean hd'] at this
-      simpa [absolutise] using this
+      simp only [absolutise, List.append_nil] at this
+      exact this
+
+/-! ### several encoders appended (`Encoder::append`, the multi-threaded load) -/
+
+theorem splitOps_ne_nil (ops : List Op) : splitOps ops ≠ [] := by
+  induction ops with
+  | nil => simp [splitOps]
+  | cons o r ih =>
+    cases o <;> simp only [splitOps] <;> (try simp) <;> (split <;> simp)
+
+theorem splitOps_join (ops : List Op) : ∃ sg ss, splitOps ops = sg :: ss ∧ ops = sg ++ joinSegs ss := by
+  induction ops with
+  | nil => exact ⟨[], [], rfl, rfl⟩
+  | cons o r ih =>
+    obtain ⟨sg, ss, h1, h2⟩ := ih
+    cases o with
+    | split => exact ⟨[], sg :: ss, by simp [splitOps, h1], by simp [joinSegs, h2]⟩
+    | time t => exact ⟨.time t :: sg, ss, by simp [splitOps, h1], by simp [h2]⟩
+    | vcd a b d => exact ⟨.vcd a b d :: sg, ss, by simp [splitOps, h1], by simp [h2]⟩
+    | raw a b d => exact ⟨.raw a b d :: sg, ss, by simp [splitOps, h1], by simp [h2]⟩
+    | real a b => exact ⟨.real a b :: sg, ss, by simp [splitOps, h1], by simp [h2]⟩
+
+/-- what is known about the encoder the segments so far were appended to -/
+structure Out (K : Kind) (c : Codec) (i : Nat) (a : Enc) (s : Spec.St) (L : List BInfo) : Prop where
+  blocks : (finishBlock c a).blocksRev.reverse = L.map (fun p => mkBlock c p.1)
+  clean : (finishBlock c a).hasNewData = false
+  inblk : ∀ p ∈ L, SigInBlockK K i p
+  sem : absAll L 0 = specChunks K i s
+  len : s.ttLen = offOf L
+  wf : s.ttLen = s.ttRev.length
+  vals : ∀ x ∈ s.changesRev.getD i [], K.valOK x.2
+  skip : s.ttRev = [] → s.skipping = false
+
+theorem finishBlock_idem (c : Codec) (a : Enc) (h : (finishBlock c a).hasNewData = false) :
+    finishBlock c (finishBlock c a) = finishBlock c a := finishBlock_clean c _ h
+
+/-- appending one more segment -/
+theorem out_step (K : Kind) (hK : KindOK K) (c : Codec) (i : Nat) (hbm : 1 ≤ c.blockMax) (hbmax : c.blockMax ≤ 2 ^ 28)
+    (tps : List SigType) (hti : tps[i]? = some K.tpe) (a b a1 : Enc) (s s2 : Spec.St) (L : List BInfo) (seg : List Op)
+    (ho : Out K c i a s L) (hreal : ∀ op ∈ seg, ∀ j v r, op = .vcd j v (some r) → r.length = 8)
+    (hb : runOps c (newEnc tps) seg = some b) (hap : append c a b = some a1)
+    (hs : foldSpec tps.toArray (.split :: seg) s = some s2) :
+    ∃ L', Out K c i a1 s2 L' := by
+  rw [foldSpec_cons] at hs
+  -- the split step of the specification
+  have hsplit : ∃ s1, Spec.step tps.toArray s .split = some s1 ∧ s1.ttRev = s.ttRev ∧ s1.ttLen = s.ttLen ∧ s1.skipping = s.skipping ∧
+      s1.changesRev = s.changesRev ∧ (s1.ttRev = [] ∨ s1.needNewMax = true) := by
+    simp only [Spec.step]
+    by_cases he : s.ttRev.isEmpty = true
+    · simp only [he, ↓reduceIte]
+      exact ⟨s, rfl, rfl, rfl, rfl, rfl, Or.inl (by simpa using he)⟩
+    · simp only [he, Bool.false_eq_true, ↓reduceIte]
+      exact ⟨_, rfl, rfl, rfl, rfl, rfl, Or.inr rfl⟩
+  obtain ⟨s1, hs1, e1, e2, e3, e4, hnm⟩ := hsplit
+  rw [hs1] at hs
+  simp only [Option.bind_some] at hs
+  obtain ⟨lfb, hbl, hbc, hbin, hbsem, hblen, hbwf, hbvals⟩ := seg_refine K hK c i hbm hbmax tps hti s1 (by rw [e2, e1]; exact ho.wf) hnm
+    (by rw [e1, e3]; exact ho.skip) (by rw [e4]; exact ho.vals) seg hreal b hb s2 hs
+  have hskip2 := spec_skip_fold tps.toArray seg s1 s2 hs (by rw [e1, e3]; exact ho.skip)
+  have hchunks1 : specChunks K i s1 = specChunks K i s := by simp [specChunks, e4]
+  refine ⟨L ++ lfb, ?_, ?_, ?_, ?_, ?_, hbwf, hbvals, hskip2⟩
+  · -- the blocks
+    unfold append at hap
+    simp only at hap
+    cases hbr : (finishBlock c b).blocksRev.reverse with
+    | nil =>
+      rw [hbr] at hap hbl
+      simp only [Option.some.injEq] at hap
+      subst hap
+      have : lfb = [] := by
+        cases lfb with
+        | nil => rfl
+        | cons x r => simp at hbl
+      rw [this, List.append_nil, finishBlock_idem c a ho.clean]
+      exact ho.blocks
+    | cons bf br =>
+      rw [hbr] at hap
+      simp only at hap
+      cases har : (finishBlock c a).blocksRev with
+      | nil =>
+        rw [har] at hap
+        simp only [Option.some.injEq] at hap
+        subst hap
+        have hL : L = [] := by
+          have := ho.blocks; rw [har] at this
+          cases L with
+          | nil => rfl
+          | cons x r => simp at this
+        have hcl : ({ finishBlock c a with blocksRev := (finishBlock c b).blocksRev } : Enc).hasNewData = false := ho.clean
+        rw [finishBlock_clean c _ hcl, hL, List.nil_append]
+        exact hbl
+      | cons al ar =>
+        rw [har] at hap
+        simp only at hap
+        split at hap
+        · simp only [Option.some.injEq] at hap
+          subst hap
+          have hcl : ({ finishBlock c a with blocksRev := (finishBlock c b).blocksRev ++ al :: ar } : Enc).hasNewData = false := ho.clean
+          rw [finishBlock_clean c _ hcl]
+          simp only [List.reverse_append, List.map_append]
+          rw [← hbl, ← ho.blocks, har]
+        · cases hap
+  · -- clean
+    unfold append at hap
+    simp only at hap
+    cases hbr : (finishBlock c b).blocksRev.reverse with
+    | nil =>
+      rw [hbr] at hap
+      simp only [Option.some.injEq] at hap
+      subst hap
+      rw [finishBlock_idem c a ho.clean]; exact ho.clean
+    | cons bf br =>
+      rw [hbr] at hap
+      simp only at hap
+      cases har : (finishBlock c a).blocksRev with
+      | nil =>
+        rw [har] at hap
+        simp only [Option.some.injEq] at hap
+        subst hap
+        have hcl : ({ finishBlock c a with blocksRev := (finishBlock c b).blocksRev } : Enc).hasNewData = false := ho.clean
+        rw [finishBlock_clean c _ hcl]; exact hcl
+      | cons al ar =>
+        rw [har] at hap
+        simp only at hap
+        split at hap
+        · simp only [Option.some.injEq] at hap
+          subst hap
+          have hcl : ({ finishBlock c a with blocksRev := (finishBlock c b).blocksRev ++ al :: ar } : Enc).hasNewData = false := ho.clean
+          rw [finishBlock_clean c _ hcl]; exact hcl
+        · cases hap
+  · intro p hp
+    rcases List.mem_append.mp hp with hp | hp
+    · exact ho.inblk p hp
+    · exact hbin p hp
+  · rw [absAll_append, ho.sem, Nat.zero_add, ← ho.len, ← e2, ← hchunks1]
+    exact hbsem
+  · rw [offOf_append, hblen, e2, ho.len]
+
+theorem out_fold (K : Kind) (hK : KindOK K) (c : Codec) (i : Nat) (hbm : 1 ≤ c.blockMax) (hbmax : c.blockMax ≤ 2 ^ 28)
+    (tps : List SigType) (hti : tps[i]? = some K.tpe) (segs : List (List Op)) :
+    ∀ (a : Enc) (s : Spec.St) (L : List BInfo) (encs : List Enc), Out K c i a s L →
+      (∀ op ∈ joinSegs segs, ∀ j v r, op = .vcd j v (some r) → r.length = 8) →
+      segs.mapM (runOps c (newEnc tps)) = some encs →
+      ∀ a' s', appendAll c a encs = some a' → foldSpec tps.toArray (joinSegs segs) s = some s' → ∃ L', Out K c i a' s' L' := by
+  induction segs with
+  | nil =>
+    intro a s L encs ho _ hm a' s' ha hs
+    simp only [List.mapM_nil, Option.pure_def, Option.some.injEq] at hm
+    subst hm
+    simp only [appendAll, Option.some.injEq] at ha
+    simp only [joinSegs, foldSpec, List.foldl_nil, Option.some.injEq] at hs
+    subst ha hs
+    exact ⟨L, ho⟩
+  | cons seg rest ih =>
+    intro a s L encs ho hreal hm a' s' ha hs
+    simp only [List.mapM_cons, Option.pure_def, Option.bind_eq_bind] at hm
+    cases hb : runOps c (newEnc tps) seg with
+    | none => rw [hb] at hm; cases hm
+    | some b =>
+      rw [hb] at hm
+      simp only [Option.bind_some] at hm
+      cases hr : rest.mapM (runOps c (newEnc tps)) with
+      | none => rw [hr] at hm; cases hm
+      | some encs' =>
+        rw [hr] at hm
+        simp only [Option.bind_some, Option.some.injEq] at hm
+        subst hm
+        simp only [appendAll] at ha
+        cases hap : append c a b with
+        | none => rw [hap] at ha; cases ha
+        | some a1 =>
+          rw [hap] at ha
+          simp only at ha
+          have hj : joinSegs (seg :: rest) = (.split :: seg) ++ joinSegs rest := by simp [joinSegs]
+          rw [hj, foldSpec_append] at hs
+          cases hs2 : foldSpec tps.toArray (.split :: seg) s with
+          | none => rw [hs2] at hs; cases hs
+          | some s2 =>
+            rw [hs2] at hs
+            simp only [Option.bind_some] at hs
+            obtain ⟨L1, ho1⟩ := out_step K hK c i hbm hbmax tps hti a b a1 s s2 L seg ho
+              (fun op hop => hreal op (by rw [hj]; exact List.mem_append_left _ (List.mem_cons_of_mem _ hop))) hb hap hs2
+            exact ih a1 s2 L1 encs' ho1 (fun op hop => hreal op (by rw [hj]; exact List.mem_append_right _ hop)) hr a' s' ha hs
 
 /-- the loader's accumulator after pushing changes given with absolute time indices -/
 def replayAbsK (entry : Change → List Nat) (xs : List Change) (a : Acc) : Acc :=
@@ -630,47 +916,81 @@ theorem replay_canonK (K : Kind) (sigS : States) (xs : List (Nat × Value)) (hx 
     rw [h0, replay_goK K sigS r _ y.1 y.2 [] hy hr rfl]
     simp [canon]
 
-/-- **Store = specification, every signal type of the VCD path**: times = those of `canon` of the specification's change list,
-entries = the loader's entry for each kept change -/
+/-- **Store with `append` = specification with splits, every signal type**: the encoders of the segments between the splits,
+appended in order and finished, load signal `i` as `canon` of the change list the specification records over the whole history -/
 theorem store_load_canonK (K : Kind) (hK : KindOK K) (c : Codec) (i : Nat) (hbm : 1 ≤ c.blockMax) (hbmax : c.blockMax ≤ 2 ^ 28)
     (tps : List SigType) (hti : tps[i]? = some K.tpe) (ops : List Op)
     (hreal : ∀ op ∈ ops, ∀ j v r, op = .vcd j v (some r) → r.length = 8)
-    (e : Enc) (he : runOps c (newEnc tps) ops = some e) (s : Spec.St) (hs : foldSpec tps.toArray ops (specInit tps) = some s)
+    (e : Enc) (he : runSegs c tps ops = some e) (s : Spec.St) (hs : foldSpec tps.toArray ops (specInit tps) = some s)
     (hsmall : ∀ b ∈ (finish c e).1.blocks, b.data.length < 2 ^ 36) :
     ∃ sigS, loadSignal (finish c e).1 i K.tpe =
       some { maxStates := sigS,
              times := (canon (s.changesRev.getD i []).reverse).map (·.1),
              entries := (canon (s.changesRev.getD i []).reverse).map (fun x => K.entry sigS (encVK K x)) } ∧
       ∀ x ∈ (s.changesRev.getD i []).reverse, WFK K sigS x.2 := by
-  obtain ⟨lf, hblocks, hin, hsem, hvals⟩ := store_blocks_refine_specK K hK c i hbm hbmax tps hti ops hreal e he s hs
-  have hfull : ∀ p ∈ lf, SigInBlockK K i p ∧ divCeil p.2.1.dataBytes.length 32 < 2 ^ 32 := by
-    intro p hp
-    refine ⟨hin p hp, ?_⟩
-    have hb : (mkBlock c p.1).data.length < 2 ^ 36 :=
-      hsmall _ (by rw [hblocks]; exact List.mem_map.mpr ⟨p, hp, rfl⟩)
-    have := payload_le_data c p.1 i p.2.1 (hin p hp).1
-    unfold divCeil
-    omega
-  have hload := multi_block_loadK c K i lf hfull
-  have hreader : (finish c e).1 = { blocks := lf.map fun p => mkBlock c p.1 } := by
-    cases hf : (finish c e).1 with
-    | mk blocks => rw [hf] at hblocks; simp only at hblocks; rw [hblocks]
-  have hwf : ∀ x ∈ (s.changesRev.getD i []).reverse, WFK K (joinedStates c lf) x.2 := by
-    intro x hx
-    refine ⟨hvals x (List.mem_reverse.mp hx), ?_⟩
-    have hmem : encVK K x ∈ absAll lf 0 := by rw [hsem]; exact List.mem_map.mpr ⟨x, hx, rfl⟩
-    obtain ⟨p, hp, y, hy, e2⟩ := mem_absAll lf 0 _ hmem
-    have hyk : y.2.1 = (K.valEnc x.2).1 := by rw [← e2]; rfl
-    obtain ⟨_, _, _, h4⟩ := hin p hp
-    have h5 := h4 y hy
-    have hne : p.2.2 ≠ [] := by intro hh; rw [hh] at hy; cases hy
-    have h6 := joinAll_ge _ _ (mem_metasOf c lf 0 p hp hne)
-    unfold joinedStates
-    rw [← hyk]; omega
-  obtain ⟨ht, hen⟩ := replay_canonK K (joinedStates c lf) _ hwf
-  refine ⟨joinedStates c lf, ?_, hwf⟩
-  rw [hreader, hload, replayBlocksK_abs, hsem, ht, hen]
-
+  obtain ⟨sg, ss, hsplit, hops⟩ := splitOps_join ops
+  unfold runSegs at he
+  rw [hsplit] at he
+  simp only [List.mapM_cons, Option.pure_def, Option.bind_eq_bind] at he
+  cases he0 : runOps c (newEnc tps) sg with
+  | none => rw [he0] at he; simp at he
+  | some e0 =>
+    rw [he0] at he
+    simp only [Option.bind_some] at he
+    cases hr : ss.mapM (runOps c (newEnc tps)) with
+    | none => rw [hr] at he; simp at he
+    | some encs =>
+      rw [hr] at he
+      simp only [Option.bind_some] at he
+      rw [hops, foldSpec_append] at hs
+      cases hs0 : foldSpec tps.toArray sg (specInit tps) with
+      | none => rw [hs0] at hs; cases hs
+      | some s0 =>
+        rw [hs0] at hs
+        simp only [Option.bind_some] at hs
+        have hinit : (Array.getD (specInit tps).changesRev i []) = [] := by
+          simp [specInit, Array.getD_eq_getD_getElem?, List.getElem?_map]
+          cases tps[i]? <;> simp
+        obtain ⟨lf0, hb0, hc0, hin0, hsem0, hlen0, hwf0, hvals0⟩ := seg_refine K hK c i hbm hbmax tps hti (specInit tps) rfl (Or.inl rfl)
+          (fun _ => rfl) (by rw [hinit]; simp) sg (fun op hop => hreal op (by rw [hops]; exact List.mem_append_left _ hop)) e0 he0 s0 hs0
+        have ho0 : Out K c i e0 s0 lf0 := by
+          refine ⟨hb0, hc0, hin0, ?_, ?_, hwf0, hvals0, spec_skip_fold tps.toArray sg _ s0 hs0 (fun _ => rfl)⟩
+          · have : specChunks K i (specInit tps) = [] := by simp [specChunks, hinit]
+            rw [this] at hsem0
+            simpa [specInit] using hsem0
+          · simpa [specInit] using hlen0
+        obtain ⟨Lf, hoF⟩ := out_fold K hK c i hbm hbmax tps hti ss e0 s0 lf0 encs ho0
+          (fun op hop => hreal op (by rw [hops]; exact List.mem_append_right _ hop)) hr e s he hs
+        -- the finished store
+        have hblocks : (finish c e).1.blocks = Lf.map (fun p => mkBlock c p.1) := by simp only [finish]; exact hoF.blocks
+        have hfull : ∀ p ∈ Lf, SigInBlockK K i p ∧ divCeil p.2.1.dataBytes.length 32 < 2 ^ 32 := by
+          intro p hp
+          refine ⟨hoF.inblk p hp, ?_⟩
+          have hb : (mkBlock c p.1).data.length < 2 ^ 36 :=
+            hsmall _ (by rw [hblocks]; exact List.mem_map.mpr ⟨p, hp, rfl⟩)
+          have := payload_le_data c p.1 i p.2.1 (hoF.inblk p hp).1
+          unfold divCeil
+          omega
+        have hload := multi_block_loadK c K i Lf hfull
+        have hreader : (finish c e).1 = { blocks := Lf.map fun p => mkBlock c p.1 } := by
+          cases hf : (finish c e).1 with
+          | mk blocks => rw [hf] at hblocks; simp only at hblocks; rw [hblocks]
+        have hsem : absAll Lf 0 = ((s.changesRev.getD i []).reverse).map (encVK K) := hoF.sem
+        have hwf : ∀ x ∈ (s.changesRev.getD i []).reverse, WFK K (joinedStates c Lf) x.2 := by
+          intro x hx
+          refine ⟨hoF.vals x (List.mem_reverse.mp hx), ?_⟩
+          have hmem : encVK K x ∈ absAll Lf 0 := by rw [hsem]; exact List.mem_map.mpr ⟨x, hx, rfl⟩
+          obtain ⟨p, hp, y, hy, e2⟩ := mem_absAll Lf 0 _ hmem
+          have hyk : y.2.1 = (K.valEnc x.2).1 := by rw [← e2]; rfl
+          obtain ⟨_, _, _, h4⟩ := hoF.inblk p hp
+          have h5 := h4 y hy
+          have hne : p.2.2 ≠ [] := by intro hh; rw [hh] at hy; cases hy
+          have h6 := joinAll_ge _ _ (mem_metasOf c Lf 0 p hp hne)
+          unfold joinedStates
+          rw [← hyk]; omega
+        obtain ⟨ht, hen⟩ := replay_canonK K (joinedStates c Lf) _ hwf
+        refine ⟨joinedStates c Lf, ?_, hwf⟩
+        rw [hreader, hload, replayBlocksK_abs, hsem, ht, hen]
 
 /-! ### the four signal types -/
 
